@@ -39,7 +39,9 @@ TNext ==
                                        cffidx |-> IF NoCross(e) THEN <<>>
                                                   ELSE SetToSortSeq(CffBadIndexes(e.o.cross), LAMBDA a, b : TRUE),
                                        member |-> IF NoCross(e) THEN <<>>
-                                                  ELSE SetToSortSeq(MemberBadNames(e.o.cross), LAMBDA a, b : TRUE)])>>)
+                                                  ELSE SetToSortSeq(MemberBadNames(e.o.cross), LAMBDA a, b : TRUE),
+                                       cmap |-> IF NoCross(e) THEN <<>>
+                                                ELSE SetToSortSeq(CmapBadNames(e.o.cross), LAMBDA a, b : TRUE)])>>)
 TSpec == TInit /\ [][TNext]_l
 AllConsumed == TLCGet("stats").diameter = Len(Rec) + 1
 =============================================================================
